@@ -286,3 +286,25 @@ pub fn replay(f: &Failure) -> i32 {
     println!("REPLAYED property=C18 kind={} (compare the two lines above)", f.kind);
     1
 }
+
+/// is the form placed by `gen_token_forms` well-formed in its syntactic category (judged by syn 2 with the `full` feature)?
+pub fn form_is_well_formed(tags: &[String]) -> bool {
+    use syn2::parse::Parser;
+    let hole = tags.iter().find_map(|t| t.strip_prefix("hole=")).unwrap_or("");
+    let form = tags.iter().find_map(|t| t.strip_prefix("form=")).unwrap_or("");
+    let ok = crate::xp::quiet_catch(|| match hole {
+        "attribute" | "impl_attribute" | "inner_attribute" | "attribute-enum" => syn2::parse_str::<syn2::Meta>(form).is_ok(),
+        "literal" | "literal-dedicated" => syn2::parse_str::<syn2::Expr>(form).is_ok() && syn2::Pat::parse_multi_with_leading_vert.parse_str(form).is_ok(),
+        "pattern" => syn2::Pat::parse_multi_with_leading_vert.parse_str(form).is_ok() || form.contains(" if "),
+        // a counterpart has to be usable as a struct-literal path: generic arguments on the last segment only
+        "counterpart" => match syn2::parse_str::<syn2::Type>(form) {
+            Ok(syn2::Type::Path(tp)) => tp.qself.is_none() && tp.path.segments.iter().rev().skip(1).all(|s| s.arguments.is_none()),
+            _ => false,
+        },
+        "as_type" | "error-type" | "child_parents-type" => syn2::parse_str::<syn2::Type>(form).is_ok(),
+        "where_clause" => syn2::parse_str::<syn2::WhereClause>(&format!("where {}", form)).is_ok(),
+        // (a `let` expression is only meaningful inside a condition; syn 2 cannot parse a braced block as a struct-update base)
+        _ => syn2::parse_str::<syn2::Expr>(form).map_or(false, |e| !matches!(e, syn2::Expr::Let(_))) && !(hole == "update-expr" && form.starts_with('{')),
+    });
+    matches!(ok, Ok(true))
+}
